@@ -18,6 +18,7 @@ type msgGen struct {
 	maxDepth   int
 	fieldPct   int  // chance that a singular field is populated
 	wide       bool // also draw values outside the documented wire format: NaN/Inf, out-of-range dates and timestamps
+	nonFinite  bool // draw NaN / +Inf / -Inf for float fields (only that part of wide)
 	malformed  bool // also draw invalid UTF-8, undefined enum numbers, Any with unknown types / broken payloads
 	maxEntries int  // list / map sizes
 	big        bool // also draw long strings / byte strings and collections with more than 64 entries
@@ -146,7 +147,7 @@ func (g *msgGen) float64Val() float64 {
 	case 1:
 		return math.Copysign(0, -1)
 	case 2:
-		if g.wide {
+		if g.wide || g.nonFinite {
 			return vh.Pick(r, []float64{math.NaN(), math.Inf(1), math.Inf(-1), math.Float64frombits(0x7ff8000000000001), math.Float64frombits(0xfff0000000000001)})
 		}
 		return float64(r.Intn(100000)) / 100
@@ -157,7 +158,7 @@ func (g *msgGen) float64Val() float64 {
 	default:
 		f := math.Float64frombits(r.U64())
 		if math.IsNaN(f) || math.IsInf(f, 0) {
-			if g.wide {
+			if g.wide || g.nonFinite {
 				return f
 			}
 			return 42.5
@@ -174,7 +175,7 @@ func (g *msgGen) float32Val() float32 {
 	case 1:
 		return float32(math.Copysign(0, -1))
 	case 2:
-		if g.wide {
+		if g.wide || g.nonFinite {
 			return vh.Pick(r, []float32{float32(math.NaN()), float32(math.Inf(1)), float32(math.Inf(-1)), math.Float32frombits(0x7fc00001), math.Float32frombits(0xff800001)})
 		}
 		return float32(r.Intn(100000)) / 100
@@ -183,7 +184,7 @@ func (g *msgGen) float32Val() float32 {
 	default:
 		f := math.Float32frombits(uint32(r.U64()))
 		if f != f || math.IsInf(float64(f), 0) {
-			if g.wide {
+			if g.wide || g.nonFinite {
 				return f
 			}
 			return 42.5
